@@ -2,7 +2,7 @@ From Coq Require Import ZArith List Bool String.
 From Coq Require Import ExtrOcamlBasic.
 From Falcon.lib Require Import Wire PyStr.
 From Falcon.C14 Require Import Spec.
-From Falcon.C13 Require Import Model ModelReaders Spec ModelPart SpecPart ModelHeap.
+From Falcon.C13 Require Import Model ModelReaders Spec ModelPart SpecPart ModelHeap ModelPartOps.
 Import ListNotations.
 Open Scope Z_scope.
 
@@ -74,6 +74,27 @@ Definition d_field (v : val) : field :=
 
 Definition v_part (p : part) : val := L [v_headers (p_headers p); vstr (p_content p)].
 
+Definition d_pop (v : val) : pop :=
+  match v with
+  | L [I 0; sz] => PRead (dopt dnat sz)
+  | L [I 1] => PGetData
+  | L [I 2] => PGetText
+  | _ => PGetMedia
+  end.
+
+Definition v_pres (r : pres) : val :=
+  match r with
+  | PBytes b => L [I 0; vstr b]
+  | PText t => L [I 1; vopt vstr t]
+  | PMedia k => L [I 2; vnat k]
+  | PTooLarge => L [I 3]
+  | PBadText => L [I 4]
+  | PBadHeader => L [I 5]
+  | PHandlerError k => L [I 6; vnat k]
+  | PUnsupported => L [I 7]
+  | PNeed => L [I 8]
+  end.
+
 (* ops: 0 parse        [0; cs; cfg; boundary; script; body]            -> run
         1 encode       [1; parts; boundary; pre; epi; fin]             -> body
         2 expected     [2; cs; cfg; parts; script]                         -> run
@@ -84,6 +105,7 @@ Definition v_part (p : part) : val := L [v_headers (p_headers p); vstr (p_conten
         8 secure_filename  [8; filename; NFKD(filename)]
         9 fields -> parts  [9; boundary; fields] -> [[part; wf_field]]
        10 metadata reads  [10; header dictionaries of the yielded parts; times 0 before/1 after/2 end/3 twice]
+       11 operations on one part  [11; max_buffer; default_charset; handlers; hok; headers; content; ops] -> [results; handler log]
         4 oracles      [4; cs; cfg; parts; script; observed]               -> [roundtrip ok; no crash] *)
 Definition run (v : val) : val :=
   match v with
@@ -114,6 +136,13 @@ Definition run (v : val) : val :=
                               if z =? 1 then MAfter else if z =? 2 then MEnd
                               else if z =? 3 then MTwice else MBefore) times in
     vlist (vlist v_view) (metadata_views false ps ts)
+  | L [I 11; mb; dc; hd; hok; hs; content; ops] =>
+    let hdata := dlist (fun p => (dstr (nth_val 0 p), dN (nth_val 1 p))) hd in
+    let oks := dlist dbool hok in
+    let '(rs, st) := prun (dnat mb) (dstr dc) hdata (fun k => nth k oks true) (d_headers hs)
+                          (pinit (dstr content)) (dlist d_pop ops) in
+    L [vlist v_pres rs;
+       vlist (fun e => L [vN (fst (fst e)); vstr (snd (fst e)); vstr (snd e)]) (s_log st)]
   | _ => L [I (-1)]
   end.
 
